@@ -105,6 +105,7 @@ func (c *Ctx) VerifyLemma(name string) (*FuncReport, error) {
 	}
 	rep := &FuncReport{Key: key, Name: c.ShortName(key), Paths: 1, Returns: 1, Reachable: true}
 	rep.Obligations = c.Obls[before:]
+	rep.Extern, rep.Modular = run.externUsed, run.modularUsed
 	return rep, nil
 }
 
